@@ -1,4 +1,5 @@
 import RbV.Lemmas.C14
+import RbV.Lemmas.HmmRat
 import RbV.Thm.GenSrcHmmViterbi
 import RbV.Thm.GenSrcHmmForward
 import RbV.Thm.GenSrcHmmBackward
@@ -213,6 +214,36 @@ theorem forward_source_eq_backward_source (z : Nat) (m : Hmm) (obs : List Nat) (
       RbV.Gen.SrcHmmBackward.backward (RbV.Rs.natOps z) (RbV.Rs.hmmOps m) obs = RbV.Rs.Res.ok (t2, v) :=
   ⟨_, _, _, forward_source_eq_model z m obs h, by rw [backward_source_eq_model z m obs h h64, forward_eq_backward m obs h]⟩
 
+/-! ### from cleared numerators to probabilities (genleft; `RbV/Lemmas/HmmRat.lean`, core `Rat`)
+
+`q : HmmQ` is a model of exact rational *probabilities*, `jointQ q obs π` the product of the probabilities along a path,
+`likelihoodQ q obs` its sum over all state paths = P(observations).  `Scaled m q dI dT dE dF`: the numerator model `m` the
+theorems above run the translated code on is `q` with the denominators cleared (`ofNumerators m …` is such a `q` for every
+`m` and non-zero denominators; for a model without end probabilities take `dF = 1`, `fin = 1`).  Every state path has the
+same number of factors of each kind, so the value the translated code returns is the probability times the constant
+`scale dI dT dE dF T = dI · dE · (dT·dE)^(T-1) · dF`. -/
+
+/-- **the translated `forward`, read over exact rationals**: it returns (without panic) the numerator `v` with
+`v = P(observations) · scale`, i.e. `P(observations) = v / scale` — the sum over all state paths of the product of the
+*probabilities* `k/d`, not of cleared numerators -/
+theorem forward_source_rat (z : Nat) (m : Hmm) (q : HmmQ) (dI dT dE dF : Nat) (hsc : Scaled m q dI dT dE dF)
+    (hI : dI ≠ 0) (hT : dT ≠ 0) (hE : dE ≠ 0) (hF : dF ≠ 0) (obs : List Nat) (h : obs ≠ []) :
+    ∃ tbl v, RbV.Gen.SrcHmmForward.forward (RbV.Rs.natOps z) (RbV.Rs.hmmOps m) obs = RbV.Rs.Res.ok (tbl, v) ∧
+      likelihoodQ q obs * (scale dI dT dE dF obs.length : Rat) = (v : Rat) ∧
+      likelihoodQ q obs = (v : Rat) / (scale dI dT dE dF obs.length : Rat) := by
+  obtain ⟨tbl, ht⟩ := forward_source_is_sum_over_paths z m obs h
+  have hl := likelihood_scaled m q dI dT dE dF hsc obs
+  exact ⟨tbl, _, ht, hl, eq_div_of_mul_eq (natCast_ne_zero (scale_ne_zero dI dT dE dF obs.length hI hT hE hF)) hl⟩
+
+/-- the same for the translated `backward` -/
+theorem backward_source_rat (z : Nat) (m : Hmm) (q : HmmQ) (dI dT dE dF : Nat) (hsc : Scaled m q dI dT dE dF)
+    (hI : dI ≠ 0) (hT : dT ≠ 0) (hE : dE ≠ 0) (hF : dF ≠ 0) (obs : List Nat) (h : obs ≠ []) (h64 : obs.length < 2 ^ 64) :
+    ∃ tbl v, RbV.Gen.SrcHmmBackward.backward (RbV.Rs.natOps z) (RbV.Rs.hmmOps m) obs = RbV.Rs.Res.ok (tbl, v) ∧
+      likelihoodQ q obs = (v : Rat) / (scale dI dT dE dF obs.length : Rat) := by
+  obtain ⟨tbl, ht⟩ := backward_source_is_sum_over_paths z m obs h h64
+  have hl := likelihood_scaled m q dI dT dE dF hsc obs
+  exact ⟨tbl, _, ht, eq_div_of_mul_eq (natCast_ne_zero (scale_ne_zero dI dT dE dF obs.length hI hT hE hF)) hl⟩
+
 /-- **`hmm::viterbi` as written = the mirror model, modulo tie-breaking** (the property does not fix which of several optimal
 paths is returned): the translated `viterbi_matrices` + end-term loop + `viterbi_traceback` return, without panic, the value
 the mirror model `viterbi m obs` reports and a state path whose joint weight is that value -/
@@ -235,6 +266,20 @@ theorem viterbi_source_is_max_over_paths (z : Nat) (m : Hmm) (obs : List Nat) (h
     intro a ha
     obtain ⟨ρ, hρ, rfl⟩ := List.mem_map.mp ha
     exact hub ρ hρ
+
+/-- **the translated `viterbi`, read over exact rationals**: the returned path maximises the *probability* `jointQ` over all
+state paths, and the returned numerator is that probability times `scale` -/
+theorem viterbi_source_rat (z : Nat) (m : Hmm) (q : HmmQ) (dI dT dE dF : Nat) (hsc : Scaled m q dI dT dE dF)
+    (hI : dI ≠ 0) (hT : dT ≠ 0) (hE : dE ≠ 0) (hF : dF ≠ 0) (obs : List Nat) (hS : 0 < m.S) (hwf : m.WF) (h : obs ≠ []) :
+    ∃ π v, RbV.Gen.SrcHmmViterbi.viterbi (RbV.Rs.natOps z) (RbV.Rs.hmmOps m) obs = RbV.Rs.Res.ok (π, v) ∧
+      π ∈ paths q.S obs.length ∧ jointQ q obs π = (v : Rat) / (scale dI dT dE dF obs.length : Rat) ∧
+      ∀ ρ ∈ paths q.S obs.length, jointQ q obs ρ ≤ jointQ q obs π := by
+  obtain ⟨π, v, hv, hp, hj, hub, _⟩ := viterbi_source_is_max_over_paths z m obs hS hwf h
+  refine ⟨π, v, hv, by rw [hsc.S]; exact hp, ?_, fun ρ hρ => ?_⟩
+  · apply eq_div_of_mul_eq (natCast_ne_zero (scale_ne_zero dI dT dE dF obs.length hI hT hE hF))
+    rw [joint_scaled m q dI dT dE dF hsc, hj]
+  · rw [hsc.S] at hρ
+    exact jointQ_le_of_joint_le m q dI dT dE dF hsc hI hT hE hF obs π ρ (by rw [hj]; exact hub ρ hρ)
 
 /-- the zero-aware comparator closure of `viterbi_matrices`, as written, refines the score `previous value · transition`
 (what makes `max_by` return a maximising predecessor in any scan order) -/
@@ -310,6 +355,18 @@ def oneState : Hmm :=
   { S := 1, init := fun _ => 10, trans := fun _ _ => 10, emit := fun _ _ => 10, fin := fun _ => 1, hasEnd := true }
 example : viterbi oneState [0, 0] = ([0, 0], 10 ^ 4) ∧ joint oneState [0, 0] [0, 0] = 10 ^ 4 ∧
     forward oneState [0, 0] = 10 ^ 4 := by decide
+
+/-- probabilities instead of numerators, on the regression witness: all weights 10/10 = 1 except the end probability 1/10,
+two observations: `scale = 10·10·(10·10)·10 = 10⁵`, the translated `forward` returns 10⁴, so P(observations) = 10⁴/10⁵ = 1/10
+(and the sum over paths of the products of the probabilities, computed directly over `Rat`, is 1/10) -/
+example : ∃ tbl v, RbV.Gen.SrcHmmForward.forward (RbV.Rs.natOps 7) (RbV.Rs.hmmOps oneState) [0, 0] = RbV.Rs.Res.ok (tbl, v) ∧
+    likelihoodQ (ofNumerators oneState 10 10 10 10) [0, 0] = (v : Rat) / (scale 10 10 10 10 2 : Rat) :=
+  let ⟨tbl, v, h, _, h2⟩ := forward_source_rat 7 oneState _ 10 10 10 10
+    (ofNumerators_scaled oneState 10 10 10 10 (by decide) (by decide) (by decide) (by decide))
+    (by decide) (by decide) (by decide) (by decide) [0, 0] (by decide)
+  ⟨tbl, v, h, h2⟩
+example : scale 10 10 10 10 2 = 10 ^ 5 ∧ likelihoodQ (ofNumerators oneState 10 10 10 10) [0, 0] = 1 / 10 ∧
+    ((10 ^ 4 : Nat) : Rat) / ((10 ^ 5 : Nat) : Rat) = 1 / 10 := by decide +kernel
 
 /-- `WF` cannot be dropped: a model that carries end weights but does not declare them (only constructible with
 the raw `discrete_emission_opt_end::Model::new(…, end, false)`) is decoded without them -/
